@@ -4,6 +4,8 @@ import (
 	"encoding/binary"
 	"fmt"
 	"math"
+	"sort"
+	"strings"
 
 	"github.com/fullstorydev/grpchan/httpgrpc"
 	"google.golang.org/protobuf/proto"
@@ -157,6 +159,9 @@ func oracle(c *Case, o *Obs) []Finding {
 			break
 		}
 	}
+	if w := misdecoded(c, o); w != "" {
+		add("genuine-body-misdecoded", w)
+	}
 	if o.FinalNil {
 		add("no-terminal-error", fmt.Sprintf("%d RecvMsg calls, none failed", maxRecv))
 		return out
@@ -178,7 +183,7 @@ func oracle(c *Case, o *Obs) []Finding {
 	case stInPrefix, stInData, stDataOver:
 		add("reported-success", fmt.Sprintf("server RecvMsg ended with io.EOF (request looks complete) after %d message(s), but the request %s (%s ending)", len(o.Delivered), describeStop(m.Stop), c.ending()))
 	case stBoundarySrv:
-		if !c.Abrupt && len(o.Delivered) != len(m.Frames) {
+		if !c.Abrupt && declaredConsistent(c) && len(o.Delivered) != len(m.Frames) {
 			add("lost-message-on-success", fmt.Sprintf("clean end of request with %d of %d messages delivered", len(o.Delivered), len(m.Frames)))
 		}
 	}
@@ -222,7 +227,133 @@ func oracleUnary(c *Case, o *Obs) []Finding {
 	if c.Abrupt && len(o.Delivered) > 0 {
 		add("fabricated-message", fmt.Sprintf("body read failed with io.ErrUnexpectedEOF after %d of %d bytes, yet message %q was delivered", len(c.Body()), c.FullLen, o.DeliveredS[0]))
 	}
+	if w := misdecoded(c, o); w != "" {
+		add("genuine-body-misdecoded", w)
+	}
 	return out
+}
+
+// declaredConsistent: the declared length of the body, if any, is its length.
+func declaredConsistent(c *Case) bool {
+	return c.CL == nil || *c.CL < 0 || *c.CL == int64(len(c.Body()))
+}
+
+// misdecoded: a complete body that the real encoder produced, ending cleanly
+// and carried by a message that declares its true length or none, is an
+// encoding of a message sequence; the decoder must yield exactly the messages
+// that were encoded and the outcome that was encoded, however the bytes are cut
+// into reads (the genuine run, which saw the same bytes, is the reference).
+func misdecoded(c *Case, o *Obs) string {
+	e := c.Expect
+	if e == nil || c.Abrupt || !declaredConsistent(c) || o.Panic != "" {
+		return ""
+	}
+	same := len(o.DeliveredS) == len(e.Msgs) && o.FinalEOF == e.FinalEOF && o.FinalErr == e.Final
+	for i := 0; same && i < len(e.Msgs); i++ {
+		same = o.DeliveredS[i] == e.Msgs[i]
+	}
+	if same {
+		return ""
+	}
+	return fmt.Sprintf("the complete genuine body, delivered %s, decodes to %q / final %q; the genuine run delivered %q / final %q", deliveryText(c), o.DeliveredS, o.FinalErr, e.Msgs, e.Final)
+}
+
+func deliveryText(c *Case) string {
+	switch c.Delivery {
+	case "split":
+		return fmt.Sprintf("with read boundaries at %v (%s)", c.Splits, deliveryClass(c))
+	case "bytewise":
+		return "one byte per read"
+	case "with-err":
+		return "with the ending reported together with the last bytes"
+	}
+	return "in one piece"
+}
+
+// splitClass names where a read boundary at offset k (0 < k < len(body)) falls
+// in the frame structure the reference decoder sees.
+func splitClass(body []byte, k int) string {
+	pos := 0
+	for pos < len(body) {
+		if k <= pos {
+			break
+		}
+		if k < pos+4 {
+			return fmt.Sprintf("in-preface+%d", k-pos)
+		}
+		if len(body)-pos < 4 {
+			break
+		}
+		p := int32(binary.BigEndian.Uint32(body[pos:]))
+		n := int64(p)
+		if n < 0 {
+			n = -n
+		}
+		if n > limit {
+			return "after-refused-preface"
+		}
+		end := pos + 4 + int(n)
+		switch {
+		case k == pos+4 && n > 0:
+			return "after-preface"
+		case k < end:
+			return "in-payload"
+		case k == end && p >= 0:
+			return "frame-boundary"
+		}
+		if p < 0 { // a trailer frame (client) / a refused frame (server) ends the decoding
+			return "after-last-frame"
+		}
+		pos = end
+	}
+	return "outside-body"
+}
+
+// deliveryClass is the part of a fingerprint that says how the body was cut
+// into reads, by the place of the read boundaries in the frame structure and
+// not by their offsets.
+func deliveryClass(c *Case) string {
+	if c.Delivery != "split" {
+		return c.Delivery
+	}
+	if c.Mode == "unary" {
+		return "split"
+	}
+	seen := map[string]bool{}
+	var names []string
+	for _, k := range c.Splits {
+		n := "outside-body"
+		if k > 0 && k < len(c.Body()) {
+			n = splitClass(c.Body(), k)
+		}
+		if !seen[n] {
+			seen[n] = true
+			names = append(names, n)
+		}
+	}
+	sort.Strings(names)
+	return "split:" + strings.Join(names, ",")
+}
+
+// fragmentedInside: some read boundary falls inside a frame (a size preface or
+// a payload the decoder has to reassemble).
+func fragmentedInside(c *Case) bool {
+	switch c.Delivery {
+	case "bytewise":
+		return len(c.Body()) >= 2
+	case "split":
+		if c.Mode == "unary" {
+			return false
+		}
+		for _, k := range c.Splits {
+			if k > 0 && k < len(c.Body()) {
+				if cl := splitClass(c.Body(), k); strings.HasPrefix(cl, "in-") || cl == "after-preface" {
+					return true
+				}
+			}
+		}
+	}
+	return false
 }
 
 // nontrivial: the decoder has to take a decision the property is about (a
@@ -234,9 +365,9 @@ func nontrivial(c *Case) (bool, string) {
 	m := refModel(c.Side, c.Body())
 	switch m.Stop {
 	case stTrailerOK, stTrailerErr:
-		return false, m.Stop
+		return fragmentedInside(c), m.Stop
 	case stBoundarySrv:
-		return c.Abrupt, m.Stop
+		return c.Abrupt || fragmentedInside(c), m.Stop
 	}
 	return true, m.Stop
 }
